@@ -152,7 +152,58 @@ def _job(args):
     return out
 
 
+def scan_rename_stream(ctx: Ctx, n: int):
+    """'... or is internal like another' : a project scanned under two injective namings of its directories and files
+    (collision-free vs. sibling names that are string prefixes of each other), with module_path below root_path and with
+    external libraries kept as well: modules and imports must be the same up to the renaming."""
+    from harness import scan
+    for it in range(n):
+        rng = ctx.rng
+        anodes = [x for x in abstract_tree(rng, rng.choice([6, 9, 12])) if x != ()]
+        if not anodes:
+            continue
+        leaves = [x for x in anodes if not any(len(y) > len(x) and y[:len(x)] == x for y in anodes)]
+        inner = [x for x in anodes if x not in leaves]
+        imports = {}
+        for f in leaves:
+            imports[f] = [rng.choice(leaves) for _ in range(rng.randint(0, 3))]
+        top = [x for x in inner if len(x) == 1]
+        mp_abs = rng.choice(top) if top and rng.random() < 0.7 else ()
+        kw = rng.choice([{}, {"exclude_external_libraries": False}, {"exclude_external_libraries": False}])
+        perm = list(range(9))
+        rng.shuffle(perm)
+        results = []
+        for names in (FREE, [ADV[perm[i]] for i in range(9)], [ADV2[perm[(i + 4) % 9]] for i in range(9)]):
+            root = "proj"
+            nm = lambda x: tuple([root] + [names[i] for i in x])
+            dirs = [(root,)] + [nm(x) for x in inner]
+            files = {nm(f): {"py": True, "body": [("import", [".".join(nm(t))]) for t in imports[f] if t != f]} for f in leaves}
+            base = scan.materialise(dirs, files)
+            try:
+                r = scan.real_scan(base, root, nm(mp_abs), **kw)
+            finally:
+                scan.cleanup(base)
+            ctx.evaluations += 1
+            if r[0] != "OK":
+                results.append(("ERR", r[1][:100]))
+                continue
+            back = {".".join(nm(x)): x for x in anodes}
+            back[root] = ()
+            mods = frozenset(back.get(m, ("?", m)) for m in r[1])
+            eds = frozenset((back.get(a, ("?", a)), back.get(b, ("?", b))) for a, b in r[2])
+            results.append(("OK", mods, eds))
+        for r in results[1:]:
+            if r != results[0]:
+                ctx.violation(dict(abstract_nodes=[list(x) for x in anodes], imports={str(list(k)): [list(t) for t in v] for k, v in imports.items()}, module_path=list(mp_abs),
+                                   options=kw, free=str(results[0])[:400], adversarial=str(r)[:400]),
+                              "modules / imports of a scan change under an injective renaming of directories and files", {"kind": "scan_rename"})
+                break
+        ctx.mark_nontrivial(("scanren", it))
+    ctx.stat("scan_rename_cases", n)
+
+
 def run(ctx: Ctx):
+    scan_rename_stream(ctx, 60 if ctx.quick else 1500)
     n = 900 if ctx.quick else 24000
     per = 30
     jobs = [(ctx.rng.randrange(1 << 30), per) for _ in range(n // per)]
@@ -165,7 +216,7 @@ def run(ctx: Ctx):
     ctx.stat("abstract_cases", n)
     ctx.rule = (f"{n} abstract cases (tree over component ids, import relation, and either a module rule pick (1-2 subjects x 1-2 objects, both filter kinds, related allowed; 14 shapes) "
                 "or a layered architecture with a layer rule (14 shapes)) each materialised under four injective namings: collision-free, a non-ASCII pool (first characters below and above U+00FF), and two adversarial pools in which siblings are string "
-                "prefixes/substrings of each other; real outcomes (verdict, parsed message lines, layer tags) compared after mapping names back to ids; plot labels likewise (see C17); "
+                "prefixes/substrings of each other; real outcomes (verdict, parsed message lines, layer tags) compared after mapping names back to ids; plot labels likewise (see C17); projects scanned under three namings with module_path below root_path and externals kept (modules / imports equal up to the renaming); "
                 "every evaluation also compared with the model; non-trivial = case whose shapes give different verdicts")
 
 
